@@ -165,8 +165,9 @@ def ckey(v):
     if isinstance(v, re.Pattern):
         return ('Pattern', ckey(v.pattern), v.flags)
     if hasattr(ty, '__pane_info__'):
+        # (fields the user excluded from output are outside every round trip by definition - "modulo fields the user excluded")
         return (ty.__module__, ty.__qualname__, id(ty),
-                tuple((f.name, ckey(getattr(v, f.name, '<unset>'))) for f in ty.__pane_info__.fields))
+                tuple((f.name, ckey(getattr(v, f.name, '<unset>'))) for f in ty.__pane_info__.fields if not getattr(f, 'exclude', False)))
     import enum
     if isinstance(v, enum.Enum):
         return ('enum', ty.__name__, v.name)
